@@ -215,11 +215,21 @@ def v_eq(a, b):
         return z3.And([v_eq(x, y) for x, y in zip(a.items, b.items)]) if a.items else z3.BoolVal(True)
     if isinstance(a, VConst) and isinstance(b, VConst):
         return z3.BoolVal(a.py is b.py or (a.kind == b.kind == 'pyconst' and a.py == b.py))
+    if isinstance(a, VObj) and isinstance(b, VInt) and a.tag is not None:
+        return a.tag == b.t          # element of an id list (IdList field) compared with an object
+    if isinstance(b, VObj) and isinstance(a, VInt) and b.tag is not None:
+        return b.tag == a.t
     if isinstance(a, VObj) and isinstance(b, VObj):
         if a is b:
             return z3.BoolVal(True)
         if a.tag is not None and b.tag is not None:
             return a.tag == b.tag
+        return z3.BoolVal(False)
+    # a user value is never the module-private sentinel object
+    if (isinstance(a, VOpaque) and isinstance(b, VConst) and b.kind == 'sentinel') or \
+            (isinstance(b, VOpaque) and isinstance(a, VConst) and a.kind == 'sentinel'):
+        return z3.BoolVal(False)
+    if (isinstance(a, VConst) and a.kind == 'sentinel') or (isinstance(b, VConst) and b.kind == 'sentinel'):
         return z3.BoolVal(False)
     # different python types: never equal (int vs str, etc.)
     if isinstance(a, VOpaque) or isinstance(b, VOpaque):
@@ -326,6 +336,8 @@ class Interp:
             return z3.Length(v.t) > 0
         if isinstance(v, (VTuple, VList)):
             return z3.BoolVal(len(v.items) > 0)
+        if isinstance(v, VAbsList):
+            return self.path.fresh_bool('nonempty')
         if isinstance(v, VDict):
             return z3.BoolVal(len(v.d) > 0)
         if isinstance(v, VObj):
@@ -361,9 +373,23 @@ class Interp:
         return self.as_int(self.call_spec('pow2', VInt(n)))
 
     # ----------------------------------------------------------------- names
+    def force(self, v):
+        """materialise a lazy value.  Live frames share one object; a pre-state frame gets the initial-state copy."""
+        if not isinstance(v, VLazy):
+            return v
+        cell = v.cell
+        if cell['value'] is None:
+            cell['value'] = cell['make']()
+            cell['snap'] = self.snapshot_value(cell['value'], {})
+        return cell['snap'] if v.snapshot else cell['value']
+
     def lookup(self, name, fr):
         if name in fr.locals:
-            return fr.locals[name]
+            v = fr.locals[name]
+            if isinstance(v, VLazy):
+                v = self.force(v)
+                fr.locals[name] = v
+            return v
         if fr.spec or self.reg.is_spec_module(fr.module):
             r = self.reg.resolve_spec_name(name)
             if r is not None:
@@ -472,7 +498,11 @@ class Interp:
     def getattr(self, base, attr, fr, default=None):
         if isinstance(base, VObj):
             if attr in base.fields:
-                return base.fields[attr]
+                v = base.fields[attr]
+                if isinstance(v, VLazy):
+                    v = self.force(v)
+                    base.fields[attr] = v
+                return v
             if attr == '__class__':
                 return VConst('class', base.cls)
             cls = base.cls
@@ -490,6 +520,8 @@ class Interp:
             decl = self.reg.declared_fields(cls)
             if attr in decl:
                 raise OutOfSubset('field %s.%s declared but not initialised' % (cls.name, attr))
+            if fr.spec:
+                raise OutOfSubset('contract reads undeclared attribute %s.%s' % (cls.name, attr))
             raise PyRaise(self.builtin_exc('AttributeError', VStr(attr)))
         if isinstance(base, VConst):
             if base.kind == 'class':
@@ -630,12 +662,15 @@ class Interp:
         if isinstance(base, VDict):
             return self.dict_get(base, idx, fr)
         if isinstance(base, VMap):
-            k = idx.t
+            k = base.key_term(self, idx)
+            if k is None:
+                if fr.spec:
+                    raise OutOfSubset('map key of the wrong kind in a contract')
+                raise PyRaise(self.builtin_exc('KeyError', idx))     # a key of another python type is absent
             if not fr.spec:
                 if not self.path.branch(base.has(k), 'key'):
                     raise PyRaise(self.builtin_exc('KeyError', idx))
-            r = base.get(k)
-            return {'int': VInt, 'str': VStr, 'val': VOpaque}[base.valkind](r)
+            return base.get(self, idx)
         raise OutOfSubset('index of %r' % (base,))
 
     def dict_get(self, d, key, fr):
@@ -731,6 +766,8 @@ class Interp:
                 r = z3.BoolVal(a.py is b.py)
             elif isinstance(a, VConst) or isinstance(b, VConst):
                 r = z3.BoolVal(False)
+            elif isinstance(a, VOpaque) and isinstance(b, VOpaque):
+                r = a.t == b.t
             elif isinstance(a, VBool) and isinstance(b, VBool):
                 r = a.t == b.t
             elif isinstance(a, VObj) and isinstance(b, VObj):
@@ -791,7 +828,8 @@ class Interp:
                 ks.append(v_eq(item, kv))
             return z3.Or(ks) if ks else z3.BoolVal(False)
         if isinstance(container, VMap):
-            return container.has(item.t)
+            k = container.key_term(self, item)
+            return container.has(k) if k is not None else z3.BoolVal(False)
         raise OutOfSubset('in %r' % (container,))
 
     def ev_BinOp(self, node, fr):
@@ -1105,6 +1143,9 @@ class Interp:
     def call_function(self, func, args, kwargs, fr, self_cls=None, force_inline_ctor=False):
         if self.reg.is_spec_module(func.module) and not self.reg.is_lemma(func):
             return self.call_spec_function(func, args, kwargs)
+        if (func.module.relpath, func.qualname) in self.reg.formatting:
+            # formatting-only helper (message text): dropped by the extraction, see DESIGN 2.1
+            return VStr(self.path.fresh_str('fmt'))
         if self.reg.is_spec_module(func.module):
             contract = self.reg.lemmas[func.name][1]
         else:
@@ -1328,7 +1369,10 @@ class Interp:
         if isinstance(t, ast.Attribute):
             base = self.ev(t.value, fr)
             if isinstance(base, VObj):
-                self.reg.check_field_write(self, base, t.attr, fr)
+                decl = self.reg.declared_fields(base.cls).get(t.attr)
+                if isinstance(decl, ast.Name) and decl.id == 'IdList' and isinstance(v, VList) and \
+                        all(isinstance(x, VObj) and x.tag is not None for x in v.items):
+                    v = VSeq(seq_of_terms([x.tag for x in v.items]), 'list')
                 base.fields[t.attr] = v
                 return
             raise OutOfSubset('attribute store on %r' % (base,))
@@ -1359,6 +1403,8 @@ class Interp:
                         return
                     self.raise_builtin('IndexError', 'assignment index out of range')
                 raise OutOfSubset('symbolic index store in list')
+            if isinstance(base, VAbsList):
+                return
             if isinstance(base, VDict):
                 if isinstance(idx, VStr) and z3.is_string_value(idx.t):
                     base.d[idx.t.as_string()] = v
@@ -1394,6 +1440,22 @@ class Interp:
         raise PyRaise(e)
 
     def exc_matches(self, exc, typ):
+        cs = getattr(exc, 'cls_set', None)
+        if cs and len(cs) > 1:
+            ms = []
+            for c in cs:
+                probe = VObj(c, {})
+                ms.append(self.exc_matches(probe, typ))
+            if all(ms):
+                return True
+            if not any(ms):
+                return False
+            # the handler tells the classes apart: split the set
+            k = self.path.choose(2, 'excsplit')
+            keep = [c for c, m in zip(cs, ms) if m == (k == 0)]
+            exc.cls_set = keep
+            exc.cls = keep[0]
+            return k == 0
         if isinstance(typ, VTuple):
             return any(self.exc_matches(exc, t) for t in typ.items)
         if isinstance(typ, VConst) and typ.kind == 'class':
@@ -1453,8 +1515,10 @@ class Interp:
             return VTuple([self.havoc_value(x, base) for x in v.items])
         if isinstance(v, VFloat):
             return VFloat(z3.Real(p.fresh_name(base)))
-        if v is VNone or isinstance(v, (VConst, VBound)):
+        if v is VNone or isinstance(v, (VConst, VBound, VAbsList)):
             return v
+        if isinstance(v, (VList, VDict)):
+            return VAbsList('dict' if isinstance(v, VDict) else 'list')
         if isinstance(v, VObj):
             self.havoc_object(v, base)
             return v
@@ -1465,6 +1529,9 @@ class Interp:
             if fields is not None and k not in fields:
                 continue
             cur = obj.fields[k]
+            if isinstance(cur, VLazy):
+                cur = self.force(cur)
+                obj.fields[k] = cur
             if isinstance(cur, VSeq) and cur.mutable:
                 cur.t = self.path.fresh_seq(base + '.' + k)
             elif isinstance(cur, VObj):
@@ -1477,6 +1544,7 @@ class Interp:
     def loop_targets(self, st):
         """names assigned and root names possibly mutated in the loop body"""
         assigned, mutated = set(), set()
+        self._stored_fields = {}
         body_nodes = list(st.body) + list(getattr(st, 'orelse', []))
         for b in body_nodes:
             for n in ast.walk(b):
@@ -1484,10 +1552,15 @@ class Interp:
                     assigned.add(n.id)
                 elif isinstance(n, (ast.Attribute, ast.Subscript)) and isinstance(n.ctx, ast.Store):
                     r = n
+                    first_attr = None
                     while isinstance(r, (ast.Attribute, ast.Subscript)):
+                        if isinstance(r, ast.Attribute) and isinstance(r.value, ast.Name):
+                            first_attr = r.attr
                         r = r.value
                     if isinstance(r, ast.Name):
                         mutated.add(r.id)
+                        if first_attr:
+                            self._stored_fields.setdefault(r.id, set()).add(first_attr)
                 elif isinstance(n, ast.Call):
                     f = n.func
                     if isinstance(f, ast.Attribute):
@@ -1521,7 +1594,9 @@ class Interp:
                 v = fr.locals[name]
                 if isinstance(v, VSeq) and v.mutable:
                     fr.locals[name] = VSeq(self.path.fresh_seq('%s.%s' % (tag, name)), v.kind)
-                elif isinstance(v, (VObj, VList, VDict, VMap)):
+                elif isinstance(v, (VList, VDict, VAbsList)):
+                    fr.locals[name] = VAbsList('dict' if isinstance(v, VDict) or getattr(v, 'kind', '') == 'dict' else 'list')
+                elif isinstance(v, (VObj, VMap)):
                     raise OutOfSubset('loop reassigns object variable %s' % name)
                 else:
                     fr.locals[name] = self.havoc_value(v, '%s.%s' % (tag, name))
@@ -1531,9 +1606,10 @@ class Interp:
                 if isinstance(v, VSeq) and v.mutable:
                     v.t = self.path.fresh_seq('%s.%s' % (tag, name))
                 elif isinstance(v, VObj):
-                    self.havoc_object(v, '%s.%s' % (tag, name), self.reg.mutable_fields(v.cls))
-                elif isinstance(v, VList):
-                    raise OutOfSubset('loop mutates python list %s' % name)
+                    flds = set(self.reg.mutable_fields(v.cls)) | self._stored_fields.get(name, set())
+                    self.havoc_object(v, '%s.%s' % (tag, name), flds)
+                elif isinstance(v, (VList, VDict)):
+                    fr.locals[name] = VAbsList('dict' if isinstance(v, VDict) else 'list')
         return assigned | mutated
 
     def spec_frame(self, fr):
@@ -1711,12 +1787,25 @@ class Interp:
                 self.havoc_object(tgt, 'call.%s' % cname, self.reg.mutable_fields(tgt.cls))
             else:
                 raise OutOfSubset('assigns target %r' % (tgt,))
-        # outcome: normal or one of the declared exceptions
-        outcomes = ['return'] + list(range(len(contract.raises)))
+        # outcome: normal or one of the declared exceptions; unconditional clauses without ensures are grouped
+        # into a single outcome carrying the set of possible classes (split only where a handler tells them apart)
+        plain = [i for i, rc in enumerate(contract.raises) if rc.when is None and not rc.ensures]
+        outcomes = ['return'] + [i for i in range(len(contract.raises)) if i not in plain]
+        if plain:
+            outcomes.append(('group', plain))
         if contract.never_returns:
             outcomes = outcomes[1:]
         which = self.path.choose(len(outcomes), 'outcome@%s' % cname)
         oc = outcomes[which]
+        if isinstance(oc, tuple):
+            mod = self.reg.spec_module_for(contract)
+            classes = [self.resolve_exc_class(contract.raises[i].exc, mod) for i in oc[1]]
+            if not self.path.feasible(z3.BoolVal(True)):
+                raise PathEnd()
+            exc = VObj(classes[0], {})
+            exc.cls_set = classes
+            self.init_abstract_exception(exc, contract.raises[oc[1][0]], cf)
+            raise PyRaise(exc)
         if oc == 'return':
             for rc in contract.raises:
                 if rc.iff and rc.when is not None:
@@ -1733,7 +1822,7 @@ class Interp:
             self.path.assume(self.truth(self.ev(rc.when, cf.old_spec())))
         if not self.path.feasible(z3.BoolVal(True)):
             raise PathEnd()
-        cls = self.resolve_exc_class(rc.exc, func.module)
+        cls = self.resolve_exc_class(rc.exc, self.reg.spec_module_for(contract))
         exc = VObj(cls, {})
         self.init_abstract_exception(exc, rc, cf)
         cf.locals['exc'] = exc
@@ -1769,6 +1858,10 @@ class Interp:
     def snapshot_value(self, v, memo):
         if id(v) in memo:
             return memo[id(v)]
+        if isinstance(v, VLazy):
+            if v.cell['value'] is not None and not v.snapshot:
+                return self.snapshot_value(v.cell['value'], memo)
+            return VLazy(v.cell, snapshot=True)
         if isinstance(v, VSeq) and v.mutable:
             r = VSeq(v.t, v.kind)
         elif isinstance(v, VObj):
